@@ -38,8 +38,9 @@
      is not a user-data block, in order, its times the block's timecodes converted at the file's frame rate minus the
      programme start (zero when told to ignore it), vertical position, justification, rows through the row parser of
      the display standard (C05_read_spec, C05_read_count, C05_read_item_fields); shorter files are errors.
-   Not proved here (oracle and correspondence only): reading of arbitrary renderings of a ground-truth file (style
-   codes in any order, closing codes omitted, colour / start box codes); the theorems cover the writer's rendering. *)
+   The reading half for ALL renderings of a ground-truth file (style codes in any order, redundant, repeated, unclosed;
+   undefined bytes; both currency positions; GSI fields in every form the parser accepts; user-data blocks anywhere;
+   open-subtitling and teletext rows) is C05_read_rendered, at the end of this file with its own comment block. *)
 From Coq Require Import List ZArith NArith Bool.
 From Astisub Require Import Kit.Base Kit.Str Kit.Utf8 Kit.Scan Model.Dur Model.Stl Gen.StlTables Proofs.StlCodec Proofs.StlBlocks
   Proofs.StlTti Proofs.StlGsi Proofs.StlRows Proofs.StlRowsTtx Proofs.StlDoc Proofs.StlWriteRead Proofs.StlReadSpec.
@@ -229,3 +230,104 @@ Theorem C05_teletext_row_is_shared_model : forall row acc,
   Ok (let '(l, acc') := stl_ttx_row row [] [] sattr0_stl false acc in (map trun_of l, acc')).
 Proof. exact stl_ttx_row_is_parse_row. Qed.
 Print Assumptions C05_teletext_row_is_shared_model.
+
+(* ================= THE READING HALF FOR ALL RENDERINGS (Proofs/StlRead*.v) =================
+   A rendering of an EBU STL file over a ground-truth model, as in the property's quantifier:
+   * GSI block: the value g of every field with the form of its rendering (gsi_forms: each number zero-padded, blank-padded
+     on the left or on the right, or left blank when zero; text fields with leading blanks and trailing padding; programme
+     start / first in-cue as HHMMSSFF or blank when zero; dates as six digits or blank; the 75 spare bytes arbitrary;
+     user-defined area; frame rate 25/30; any display standard code);
+   * blocks in any order: user-data blocks (EBN 0xFE, any 128 bytes) anywhere; subtitle blocks with arbitrary subtitle group,
+     subtitle number, cumulative status and comment flag bytes, any extension block number but 0xFE, ANY four bytes as in
+     and out timecode, any vertical position and justification byte, and a 112-byte text field:
+     - display standard 0: rows separated by 0x8A, each row ANY sequence of style codes 0x80..0x85 (redundant codes, closing
+       codes omitted or repeated, codes at the start or the end of the row), characters (a spacing character of the Latin
+       table - both positions of the currency sign -, or a floating diacritic followed by a spacing character), and bytes
+       the table leaves undefined (0x8F padding anywhere, the unused codes), trailing blanks included;
+     - any other display standard (1, 2): rows separated by 0x8A, each a structured teletext row (Model/TtxRowStl.v: anything
+       but a start box in front, start box, alternating groups of colour / size / italic / underline / boxing codes and of
+       other cells, optionally end box and what follows), decoded with the STL character handler.
+   render_stl gives the bytes, denote_stl the meaning: the metadata of g; one cue per subtitle block in order; times = the
+   timecodes converted at the file's frame rate (frames rounded up to the nanosecond: within 1 ns, C05_timecode_exact) minus
+   the programme start, or minus zero when told to ignore it; justification, vertical position, number of rows; per row
+   that has text one line of runs: a style code ends the run in front of it (kept, trimmed, when not blank) and sets its
+   attribute; undefined bytes mean nothing.  C05_read_rendered: the reader returns denote_stl for every rendering that
+   passes the decidable check rendering_okb, for both values of the option.
+   Side conditions in rendering_okb beyond well-formed bytes, each outside the quantifier and shown necessary on a computed
+   instance replayed on the library by the harness suite stl.needs: a floating diacritic is followed by its character in
+   the same row (C05_read_rendered_needs_pair: otherwise the reader holds it and it lands on the next row's first character);
+   no byte below 0x20 in an open-subtitling row (C05_read_rendered_needs_no_control: the reader rejects the file); the
+   character code table is the Latin one (C05_read_rendered_needs_latin: the only table the library has). *)
+From Astisub Require Import Proofs.StlReadGsi Proofs.StlReadRows Proofs.StlReadTtx Proofs.StlReadDoc Proofs.StlRead Proofs.StlReadBytes.
+Theorem C05_read_rendered : forall ign f g blocks, rendering_okb f g blocks = true ->
+  read_stl ign (render_stl f g blocks) = Ok (denote_stl ign g blocks).
+Proof. exact read_rendered_stl. Qed.
+Print Assumptions C05_read_rendered.
+(* the parts: a GSI block in any accepted form; a row; a text field; the blocks after any GSI block that parses *)
+Theorem C05_read_rendered_gsi : forall f g, gsi_forms_ok f g ->
+  length (render_gsi f g) = 1024%nat /\ parse_gsi (render_gsi f g) = Ok g.
+Proof. exact parse_rendered_gsi. Qed.
+Print Assumptions C05_read_rendered_gsi.
+Theorem C05_read_rendered_row : forall es items text a, forallb relem_ok es = true ->
+  open_row (row_bytes es) items text a None = Ok (denote_open es items text a, None).
+Proof. exact open_row_rendered. Qed.
+Print Assumptions C05_read_rendered_row.
+Theorem C05_read_rendered_teletext_row : forall d r, srow_ok r = true ->
+  stl_ttx_row (srow_cells r) [] [] sattr0_stl false d = denote_trow d r.
+Proof. exact ttx_row_rendered. Qed.
+Print Assumptions C05_read_rendered_teletext_row.
+Theorem C05_read_rendered_blocks : forall (ign : bool) (gb : str) (g : gsi) (blocks : list rblock),
+  length gb = 1024%nat -> parse_gsi gb = Ok g -> g_cct g = stl_c_cctLatin ->
+  forallb (block_okb (is_open g) (g_fps g)) blocks = true ->
+  read_stl ign (gb ++ concat (map render_block blocks)) = Ok (denote_stl ign g blocks).
+Proof. exact read_rendered_blocks. Qed.
+Print Assumptions C05_read_rendered_blocks.
+Theorem C05_read_rendered_cue_count : forall g tcp blocks,
+  length (denote_blocks g tcp blocks) = length (filter (fun b => match b with BCue _ => true | BUser _ => false end) blocks).
+Proof. exact denote_blocks_count. Qed.
+Print Assumptions C05_read_rendered_cue_count.
+(* the writer's GSI block is one of the renderings *)
+Theorem C05_read_rendered_covers_writer : forall g, gsi_repr g -> render_gsi writer_forms g = gsi_bytes g /\ gsi_forms_ok writer_forms g.
+Proof. intros g H. split; [exact (render_gsi_writer g H) | exact (writer_forms_ok g H)]. Qed.
+Print Assumptions C05_read_rendered_covers_writer.
+(* worked instances using every freedom at once: open subtitling at 30 fps (numbers in three forms, blank one-character
+   number, leading blanks, non-blank spare bytes and user-defined area, two user-data blocks, arbitrary header bytes,
+   extension block number 5, italics on before any text and on again, closing code twice, boxing never closed, a code at
+   the end of a row, padding in the middle of the text, both currency positions, acute + e, trailing blanks, a row of
+   undefined bytes only) and a teletext standard (colour and double height in front of the start box, repeated start box,
+   attribute groups, end box, a row without end box); their bytes are spelled out in Proofs/StlReadBytes.v *)
+Example C05_read_rendered_example : forall ign,
+  rendering_okb x_f x_g x_blocks = true /\ read_stl ign x_bytes = Ok (denote_stl ign x_g x_blocks).
+Proof. intros ign. split; [exact x_ok | rewrite <- x_bytes_are_rendering; apply x_read]. Qed.
+Example C05_read_rendered_example_teletext : forall ign,
+  rendering_okb writer_forms y_g y_blocks = true /\ read_stl ign y_bytes = Ok (denote_stl ign y_g y_blocks).
+Proof. intros ign. split; [exact y_ok | rewrite <- y_bytes_are_rendering; apply y_read]. Qed.
+(* the side conditions the proof forced, each on a computed instance *)
+Example C05_read_rendered_needs_pair :
+  rows_open [[97; 194]; [101]]%N None [] = Ok ([[mkErun [97]%N sattr0_stl None None]; [mkErun [195; 169]%N sattr0_stl None None]], None).
+Proof. exact needs_pair_in_row. Qed.
+Example C05_read_rendered_needs_no_control : rows_open [[97; 11; 98]]%N None [] = Err EParse.
+Proof. exact needs_no_control_code_in_open_text. Qed.
+Example C05_read_rendered_needs_latin :
+  let g := mkGsi 12337 3683632 [] [] 1 [48]%N [] [] 25 [] 40 23 [] [] [] [] 0 [] 0 0 [49]%N 1 1 0 0 [] [] [] [] [] in
+  gsi_forms_okb writer_forms g = true /\ read_stl false (render_stl writer_forms g []) = Err EParse.
+Proof. exact needs_latin_table. Qed.
+
+(* what the meaning of a rendered file contains: every metadata field is the GSI value; the language is the image of the
+   language code under the library's mapping and empty for a code it does not know; the country code passes through *)
+Theorem C05_read_rendered_metadata : forall ign g blocks,
+  let d := denote_stl ign g blocks in
+  rd_fps d = g_fps g /\ rd_dsc d = g_dsc g /\ rd_title d = g_opt g /\ rd_oet d = g_oet g /\ rd_tpt d = g_tpt g /\ rd_tet d = g_tet g /\
+  rd_tn d = g_tn g /\ rd_tcd d = g_tcd g /\ rd_slr d = g_slr g /\ rd_cd d = g_cd g /\ rd_rd d = g_rd g /\ rd_rn d = g_rn g /\
+  rd_mnc d = g_mnc g /\ rd_mnr d = g_mnr g /\ rd_co d = g_co g /\ rd_pub d = g_pub g /\ rd_en d = g_en g /\ rd_ecd d = g_ecd g /\
+  rd_tcp d = (if ign then 0%Z else g_tcp g) /\
+  rd_lang d = match slookup (g_lc g) stl_language with Some l => l | None => [] end.
+Proof. exact denote_stl_metadata. Qed.
+Print Assumptions C05_read_rendered_metadata.
+(* a number field in each accepted form; a text field with leading blanks *)
+Theorem C05_read_rendered_number : forall f k v, (0 < k <= 18)%nat -> numform_ok f k v -> num_field (render_num f k v) = Ok v.
+Proof. exact render_num_field. Qed.
+Print Assumptions C05_read_rendered_number.
+Theorem C05_read_rendered_text_field : forall lead w s, trim_space s = s -> trim_space (render_text lead w s) = s.
+Proof. exact render_text_trim. Qed.
+Print Assumptions C05_read_rendered_text_field.
